@@ -157,7 +157,7 @@ def run_check(prop, tier, seed):
         if hit is not None:
             known_hit[hit["id"]] = hit
             continue
-        if reported >= 5:
+        if reported >= 3:
             reported += 1
             continue
         # shrink
@@ -170,7 +170,7 @@ def run_check(prop, tier, seed):
             return (not jj["agree"]) or (jj.get("spec_ok") is False) or (jj.get("impl_oracle") is False)
         small = req
         try:
-            small = core.shrink(req, still_fails, budget=150 if tier == "quick" else 400)
+            small = core.shrink(req, still_fails, budget=(60 if reported == 0 else 25) if tier == "quick" else 300)
             r = core.run_pipeline([dict(small)])
             req2, impl2, reply2 = r[0]
             j2 = prop.judge(req2, impl2, reply2)
